@@ -160,9 +160,14 @@ def check_laws(case, rec):
         rec.label("satisfies:missing-mount")
     else:
         exp = base and all(ma[2][k] >= v for k, v in mb[2].items())
-        if got != exp:
+        # inexact (float) values: a per-mount total is a sum whose rounding depends on the summation
+        # order, so a comparison of totals that differ by less than the tolerance is not asserted
+        near = (not exact) and any(
+            abs(ma[2][k] - v) <= 1e-9 * max(1.0, abs(v)) for k, v in mb[2].items()
+        )
+        if got != exp and not near:
             raise Violation("C14:satisfies", f"a={a} b={b} -> {got}, expected {exp}")
-        rec.label(f"satisfies:{exp}")
+        rec.label("satisfies:within-rounding" if near else f"satisfies:{exp}")
     # a capacity always satisfies itself and a+b satisfies b
     if a.satisfies(a) is not True:
         raise Violation("C14:satisfies-reflexive", f"{a}")
